@@ -23,6 +23,9 @@ field_strategy = st.fixed_dictionaries({
     "spikes": st.integers(0, 4), "specks": st.integers(0, 3),
     "nan_rects": st.integers(0, 2),
     "seed": st.integers(0, 2 ** 31 - 1),
+    # fraction of sources that get a compact companion of the OPPOSITE sign close enough for the two flood regions to touch
+    # (an island with pixels of both signs; either part can be the brighter one)
+    "mixed_rate": st.sampled_from([0.0, 0.0, 0.25, 0.5]),
 })
 
 
@@ -71,6 +74,12 @@ def build_field(c):
             a, b, pa = skyimg.convolve(beam, (ia + 1e-9, ia * rng.uniform(0.3, 1) + 1e-9, rng.uniform(-90, 90)))
             peak = sign * float(np.exp(rng.uniform(math.log(lo), math.log(hi))))
             truth.append(dict(ra=ra, dec=dec, peak=peak, a=a, b=b, pa=pa))
+        if c.get("mixed_rate", 0.0) and rng.random() < c["mixed_rate"]:
+            ang = rng.uniform(0, 2 * math.pi)
+            sep = rng.uniform(1.3, 1.9) * bmaj_px
+            ra, dec = (float(v) for v in w.pix2sky(px + sep * math.cos(ang), py + sep * math.sin(ang)))
+            truth.append(dict(ra=ra, dec=dec, peak=-truth[-1]["peak"] * float(rng.uniform(0.4, 2.0)),
+                              a=beam[0], b=beam[1], pa=beam[2]))
     img = skyimg.render(w, (rows, cols), truth)
     if c["noise"] == "white":
         img = img + rng.normal(size=img.shape)
